@@ -57,15 +57,19 @@ func (g *c04Gen) mk(class string) string {
 	if i == g.failAt {
 		toks = append(toks, tokReq(p))
 	} else {
+		dflt := "D"
+		if class == "command" && g.rng.Intn(2) == 0 {
+			dflt = "first line\n  second line D" // an expansion is a unit of the STRING: its text may run over line breaks
+		}
 		switch g.rng.Intn(6) {
 		case 0: // unset: expands to ""
 			toks = append(toks, tokRef(p, "brace"))
 		case 1:
 			g.env[p] = fmt.Sprintf("v%d", i)
-			toks = append(toks, tokDflt(p, "D", "empty"))
+			toks = append(toks, tokDflt(p, dflt, "empty"))
 		case 2:
 			g.env[p] = ""
-			toks = append(toks, tokDflt(p, "D", []string{"empty", "unset"}[g.rng.Intn(2)]))
+			toks = append(toks, tokDflt(p, dflt, []string{"empty", "unset"}[g.rng.Intn(2)]))
 		case 3:
 			g.env[p] = fmt.Sprintf("v%d", i)
 			toks = append(toks, tokReq(p))
